@@ -21,6 +21,12 @@ def scenarios(tier):
         S.append(('seq:%s,close,%s' % (e, e), [[e, 'close', e]], 'fine'))
     S.append(('seq:close,close,run', [['close', 'close', 'run']], 'fine'))
     S.append(('seq:closedone,run', [['closedone', 'run']], 'fine'))
+    # fault injection: an admitted execution ends in a Go panic of a native callable (recovered by the embedder);
+    # the context must still close (no leaked admission) and later requests must still be refused
+    S.append(('seq:runpanic,close,run', [['runpanic', 'close', 'run']], 'fine'))
+    S.append(('seq:runpanic,run,closedone', [['runpanic', 'run', 'closedone']], 'fine'))
+    S.append(('runpanic|close', [['runpanic'], ['close']], 'coarse'))
+    S.append(('runpanic|closedone', [['runpanic'], ['closedone']], 'coarse'))
     # two goroutines
     S.append(('run|close', [['run'], ['close']], 'fine'))
     S.append(('resolve|close', [['resolve'], ['close']], 'fine'))
@@ -191,12 +197,14 @@ def run(tier, rep):
     renv = common.go_env()
     rd = common.scratch_dir('life-race-')
     renv['GORACE'] = 'halt_on_error=0 log_path=%s' % os.path.join(rd, 'race')
-    rounds = 60 if tier == 'quick' else 600
+    rounds = 96 if tier == 'quick' else 900
     free_scen = [
         ('free:run,run,run|close|close|donewait', [['run', 'run', 'run'], ['close'], ['close'], ['donewait']]),
         ('free:run,resolve,modinit|closedone|close', [['run', 'resolve', 'modinit'], ['closedone'], ['close']]),
         ('free:modinit,run|close,run|donewait|closedone', [['modinit', 'run'], ['close', 'run'], ['donewait'], ['closedone']]),
         ('free:run,run|close|close|close|close', [['run', 'run'], ['close'], ['close'], ['close'], ['close']]),
+        ('free:run,run,run|run,run,run|close|donewait', [['run', 'run', 'run'], ['run', 'run', 'run'], ['close'], ['donewait']]),
+        ('free:runpanic,run|close|closedone', [['runpanic', 'run'], ['close'], ['closedone']]),
     ]
     fjobs = []
     for name, gs in free_scen:
